@@ -206,10 +206,18 @@ Definition tokenize (k : lkind) (v : str) : result (list tok) :=
 
 Inductive item :=
 | IT (t : tok)             (* a token left as it is *)
-| IV (ts : list tok).      (* Deb822ParsedValueElement *)
+| IV (ts : list tok) (full : bool).
+  (* Deb822ParsedValueElement.  [full] records what its text cache holds:
+     convert_to_text() and convert_to_text_without_comments() share ONE cache slot
+     (_text_no_comments_cached), whichever is called first fills it for both.
+       false : filled by the comment-free rendering (elements of a parsed field: the
+               session reads list(view) right after opening the view);
+       true  : filled by convert_to_text() (elements made by the value factory, whose
+               length assert calls convert_to_text() before anything renders them).
+     For a single-token element both texts coincide. *)
 
-Definition is_value (it : item) : bool := match it with IV _ => true | IT _ => false end.
-Definition item_toks (it : item) : list tok := match it with IT t => [t] | IV ts => ts end.
+Definition is_value (it : item) : bool := match it with IV _ _ => true | IT _ => false end.
+Definition item_toks (it : item) : list tok := match it with IT t => [t] | IV ts _ => ts end.
 Definition item_text (it : item) : str := toks_text (item_toks it).
 Definition items_text (its : list item) : str := concat (map item_text its).
 
@@ -232,7 +240,7 @@ Fixpoint parse_stream (k : lkind) (fuel : nat) (ts : list tok) : result (list it
       | t :: rest =>
           if is_val t then
             match k with
-            | Space => do r <- parse_stream k f rest; Ok (IV [t] :: r)
+            | Space => do r <- parse_stream k f rest; Ok (IV [t] false :: r)
             | Comma =>
                 let seg := match peek_find_comma rest 0 with
                            | Some off => firstn (off - 1) rest          (* peek_many(comma_offset - 1) *)
@@ -240,7 +248,7 @@ Fixpoint parse_stream (k : lkind) (fuel : nat) (ts : list tok) : result (list it
                            end in
                 let parts := trim_to_value (t :: seg) in
                 do r <- parse_stream k f (skipn (length parts - 1) rest); (* consume_many(len - 1) *)
-                Ok (IV parts :: r)
+                Ok (IV parts false :: r)
             end
           else do r <- parse_stream k f rest; Ok (IT t :: r)
       end
@@ -265,8 +273,8 @@ Definition value_factory (k : lkind) (v : str) : result item :=
       do its <- parse_str k v;
       match its with
       | [] => Err AssertionError                               (* assert t1 is not None *)
-      | [IV ts] =>
-          if (length (toks_text ts) =? length v)%nat then Ok (IV ts)
+      | [IV ts _] =>
+          if (length (toks_text ts) =? length v)%nat then Ok (IV ts true)   (* the assert fills the cache *)
           else Err AssertionError
       | [IT _] => Err ValueError
       | _ :: _ :: _ => Err ValueError
@@ -276,9 +284,12 @@ Definition value_factory (k : lkind) (v : str) : result item :=
 (** * Deb822ParsedTokenList *)
 
 (** render = Deb822ParsedValueElement.convert_to_text_without_comments
-    (the default discard_comments_on_read=True) *)
+    (the default discard_comments_on_read=True), which answers from the shared cache *)
 Definition render (it : item) : str :=
-  toks_text (filter (fun t => negb (is_comment_tok t)) (item_toks it)).
+  match it with
+  | IV ts true => toks_text ts
+  | _ => toks_text (filter (fun t => negb (is_comment_tok t)) (item_toks it))
+  end.
 
 (** isinstance(t, stype) *)
 Definition is_stype (k : lkind) (it : item) : bool :=
@@ -287,11 +298,11 @@ Definition is_stype (k : lkind) (it : item) : bool :=
             | Space => match tk t with KSep | KCont | KNl => true | _ => false end
             | Comma => is_comma_tok t
             end
-  | IV _ => false
+  | IV _ _ => false
   end.
 
 Definition is_comment_item (it : item) : bool :=
-  match it with IT t => is_comment_tok t | IV _ => false end.
+  match it with IT t => is_comment_tok t | IV _ _ => false end.
 
 Definition node := (N * item)%type.
 
@@ -334,7 +345,7 @@ Definition cont_char (vw : view) : str * view :=
   match v_cont vw with
   | Some c => (c, vw)
   | None =>
-      let c := match List.find (fun it => match it with IT t => kind_eqb (tk t) KCont | IV _ => false end)
+      let c := match List.find (fun it => match it with IT t => kind_eqb (tk t) KCont | IV _ _ => false end)
                           (v_items vw) with
                | Some it => item_text it
                | None => [SP]
